@@ -18,8 +18,8 @@ from props.c01 import tag, impl_report
 ID = 'C05'
 LEAN_MODULE = 'CC.Properties.C05'
 LEVEL = 'proof'
-THEOREMS = ['CC.C05_tellegen', 'CC.C05_power_sign', 'CC.C05_resistor', 'CC.C05_inductor', 'CC.C05_capacitor', 'CC.C05_modes']
-OPEN_STATEMENTS = ['C05_instant / C05_transient as theorems (instantaneous Tellegen from C09/C12); decided per instance by the oracle']
+THEOREMS = ['CC.C05_tellegen', 'CC.tellegen_of_kvl_kcl', 'CC.C05_instant', 'CC.C05_power_sign', 'CC.C05_resistor', 'CC.C05_inductor', 'CC.C05_capacitor', 'CC.C05_modes']
+OPEN_STATEMENTS = ['composition of C05_instant with C09_kcl_instant / C12_kcl_sample inside Lean (the hypotheses of C05_instant are exactly their conclusions)']
 ASSUMPTIONS = ['binary64 ≈ field arithmetic within 1e-9 relative', 'scipy.signal.lsim (transient samples) is a parameter']
 
 def network_case(ctx, out, desc):
